@@ -35,8 +35,15 @@ PLANS = [
 
 
 def json_to_db(jsondb):
+    """the ORACLE's reading of the JSON database (independent of the library's converter): UTF-8 keywords, hex identifiers"""
+    return {k.encode("utf-8"): [bytes.fromhex(h) for h in v] for k, v in jsondb}
+
+
+def library_db(jsondb):
+    """what the documented path hands to the client service: the library's own conversion of the JSON database"""
     from toolkit.database_utils import convert_database_keyword_to_bytes
-    return convert_database_keyword_to_bytes({k: v for k, v in jsondb})
+    import json
+    return convert_database_keyword_to_bytes(json.loads(json.dumps({k: v for k, v in jsondb})))
 
 
 async def _race_closed(svc, coro, what, scheme):
@@ -163,7 +170,7 @@ async def workflow(case):
                 if step == "genkey":
                     s.handle_create_key()
                 elif step == "encrypt":
-                    s.handle_encrypt_database(copy.deepcopy(db))
+                    s.handle_encrypt_database(library_db(case["jsondb"]))
                 elif step == "upload_config":
                     await _race_closed(s, s.handle_upload_config(wait=True, wait_callback_func=lambda f: None), "upload_config", scheme)
                 elif step == "upload_edb":
